@@ -366,6 +366,11 @@ def _tie_a_one(script):
         owner = [x for x in starts if x[0] <= el]
         if owner and owner[-1][1] == 'theorem' and owner[-1][2] in res:
             res[owner[-1][2]] = None
+        elif owner and owner[-1][1] == 'theorem' and any(t.split('_')[0] == owner[-1][2].split('_')[0] for t in res):
+            # a helper lemma of one slice (e.g. `dg3c_hP`): the theorems of that slice fail
+            for t in res:
+                if t.split('_')[0] == owner[-1][2].split('_')[0]:
+                    res[t] = None
         else:
             for t in res:
                 res[t] = None
@@ -384,6 +389,8 @@ PARSER_THEOREMS = {'parser_step_eq'}
 
 MISC_THEOREMS = {'misc_mvarray_folds_eq', 'misc_blademap_eq', 'misc_frame_eq'}
 
+SHIP_THEOREMS = {'gac_down_up', 'gac_down_up_model', 'dpga_down_up', 'dpga_down_up_model', 'dg3c_down_up', 'dg3c_down_up_model'}
+
 TRANSLATORS = [   # (script, theorems it generates (None = everything else), modules its output imports)
     ('py2lean.py', None, ['Model', 'Proofs.Rev', 'Proofs.Invol']),
     ('mv2lean.py', MV_THEOREMS, ['Proofs.Conf2', 'Proofs.CgaObj', 'Proofs.Classify']),
@@ -396,6 +403,7 @@ TRANSLATORS = [   # (script, theorems it generates (None = everything else), mod
     ('series2lean.py', SERIES_THEOREMS, ['Model']),
     ('parser2lean.py', PARSER_THEOREMS, ['Model']),
     ('misc2lean.py', MISC_THEOREMS, ['Model', 'Proofs.BladeMapP', 'Proofs.Recip']),
+    ('shipped2lean.py', SHIP_THEOREMS, ['Proofs.Shipped']),
 ]
 
 
